@@ -8,7 +8,12 @@ CLAIMS = {
         text="Proof (CBMC function + loop contracts on the unmodified qmail-clean.c): for every byte stream of requests, "
              "every request gets exactly one status byte, unlink is called only on the name just formatted for the "
              "number a well-formed request names, in the order intd then mess/todo, and a rejected request changes "
-             "nothing. Unbounded in the number and content of requests (request length <= 255 bytes).",
+             "nothing. Unbounded in the number and content of requests (request length <= 255 bytes). "
+             "spawn.c docmd() (loop contract, ghost index): open() only on the command's own name, non-empty, <= 100 bytes, "
+             "every byte a digit, a non-leading / or NUL; spawn() only for a regular file owned by the queue user; in-range "
+             "free delivery number; exactly one report (starting with the delivery number) or one started delivery per "
+             "command. qmail-send del_dochan(): every report byte pattern - out-of-range, unused or garbled reports change "
+             "no recipient's state (slot tables bounded to 3-4 entries).",
         note="Environment stubs (getln as request oracle, unlink, fmtqfn, scan_ulong through its contract) are trusted; "
              "message numbers are abstract values (scan_ulong wrap-around >= 2^64 is not distinguished).",
         design_ref="DESIGN.md section 5 C18"),
